@@ -593,6 +593,8 @@ def x3c_container(text, log):
     (prelude/comp.rs); with it the type parameter F disappears: `Package<F>` -> `Package`."""
     t2 = re.sub(r"\bcfb::CompoundFile<F>", "VComp", text)
     t2 = re.sub(r"\bPackage<F>", "Package", t2)
+    # closed world: FinishImpl is the only implementor of the private trait Finish
+    t2 = re.sub(r"\bBox<dyn Finish<F>>", "Box<FinishImpl>", t2)
     if t2 != text:
         log.add("X3c:cfb::CompoundFile<F>->VComp")
     return t2
@@ -913,6 +915,9 @@ class Extractor:
             if "x4impl" in use.top.opts:
                 self.log.setdefault("%s::impl %s" % (use.path, header), set()).add("X4:Display-impl-as-inherent-impl")
                 header = re.split(r"\bfor\b", header)[-1].strip()
+            if "x3c" in use.top.opts:
+                # the type parameter F of Package<F> disappears with the container model
+                header = re.sub(r"^<F[^>]*>\s*", "", header).replace("Package<F>", "Package")
             # a trait impl also needs its associated types / consts
             (k, name, start, end, kw) = cands[0]
             b = find_body_open(masked, kw)
